@@ -19,6 +19,10 @@ def plan(ctx):
         obs.append(Obligation(f"api.t{i}", "xh", "c10", "api_scope", param={"t": i}, timeout=T,
                               bounds="host binding present or not (symbolic), values unbounded ints",
                               desc=f"SqParser.eval({text!r})"))
+    for i, text in enumerate(["len(l)", "l | len", "[1] | map(v => len(l)) | sum"]):
+        obs.append(Obligation(f"api.two_evals.t{i}", "xh", "c10", "two_evals", param={"text": text}, timeout=T,
+                              bounds="two evals of the same source on one parser (shared tree), shadowing host binding in the first or the second (symbolic)",
+                              desc=f"eval({text!r}) twice: the host binding of `len` overrides the builtin in whichever call supplies it"))
     return {
         "obligations": obs,
         "explanation": "CrossHair (z3) symbolic execution of the real ScopedDict (arbitrary small scope stacks with symbolic string "
